@@ -283,6 +283,9 @@ def c06():
     for (c, r) in [(2, 2), (1, 1), (3, 2)]:
         for mode in (0, 2):
             add("C06", f"c06_{MODES[mode]}_unit_{c}x{r}", f"c06::insert_unit({mode}, {c}, {r})", c * r + 6, "quick" if (c, r) == (2, 2) else "thorough")
+    for (c, r) in [(3, 2), (2, 3)]:
+        for mode in (0, 2):
+            add("C06", f"c06_{MODES[mode]}_tok_bigcap_{c}x{r}", f"c06::insert_tok_bigcap({mode}, {c}, {r})", c * r + max(c, r) + 3, "quick" if (c, r) == (3, 2) else "thorough", also=["C05"])
     for (c, r) in [(2, 5), (5, 2), (2, 6)]:
         for mode in (0, 2):
             add("C06", f"c06_{MODES[mode]}_tok_{c}x{r}_x", f"c06::insert_tok({mode}, {c}, {r}, false)", c * r + max(c, r) + 3, "quick" if (c, r, mode) in [(2, 5, 2), (5, 2, 0)] else "thorough", also=["C05"])
@@ -329,6 +332,9 @@ def c07():
         for is_row in (True, False):
             add("C07", f"c07_remove_{'row' if is_row else 'col'}_unit_{c}x{r}", f"c07::remove_unit({b(is_row)}, {c}, {r})", c * r + 4,
                 "quick" if (c, r) in [(1, 1), (2, 2)] else "thorough", also=["C01"] if (c, r) == (1, 1) else [])
+    for (c, r) in [(3, 2), (2, 2), (2, 3)]:
+        for mode in (0, 2):
+            add("C07", f"c07_{RMODES[mode]}_tok_bigcap_{c}x{r}", f"c07::remove_tok_bigcap({mode}, {c}, {r})", c * r + max(c, r) + 3, "quick" if (c, r) == (3, 2) else "thorough", also=["C05"])
     add("C07", "c07_pop_empty", "c07::pop_empty()", 4, also=["C01"])
     for (c, r) in [(2, 3), (1, 1), (0, 0)]:
         for is_row in (True, False):
